@@ -101,6 +101,10 @@ pub enum Op {
     /// range of its last refcount block: the next allocations (usually a
     /// concurrent batch) need a new refcount block and a refcount-table update
     FillToRefblockEnd,
+    /// discard and rewrite a small working set of allocated clusters many
+    /// times: the host file must not keep growing (C08: freed clusters are
+    /// reused)
+    ReuseCycles,
 }
 
 #[derive(Serialize, Deserialize, Clone, Debug, PartialEq)]
@@ -169,6 +173,8 @@ pub struct GenOpts {
     /// percent of the concurrent batches that are built around the metadata
     /// machinery (allocating write + flush + walk over other L2 slices)
     pub template_pct: u32,
+    /// percent of runs that end with a ReuseCycles step
+    pub reuse_cycles_pct: u32,
 }
 
 impl Default for GenOpts {
@@ -207,6 +213,7 @@ impl Default for GenOpts {
             frag_pct: 6,
             frag_now: false,
             template_pct: 20,
+            reuse_cycles_pct: 0,
         }
     }
 }
@@ -777,7 +784,12 @@ pub fn gen_steps(rng: &mut Rng, cfg: &Cfg, o: &GenOpts) -> Vec<Step> {
         } else {
             12
         };
-        while pos < vend && steps.len() < if vend > (24 << 20) { 80 } else { 40 } {
+        // with concurrency in the profile: do the last stretch - where the
+        // host file crosses what the refcount table covers - with several
+        // writers and a flusher at once
+        let par_tail = full && o.par_pct > 0 && !big && rng.chance(2, 3);
+        let seq_end = if par_tail { vend / cs * 15 / 16 * cs } else { vend };
+        while pos < seq_end && steps.len() < if vend > (24 << 20) { 80 } else { 40 } {
             let n = if big {
                 rng.range(400, 2400)
             } else if full {
@@ -785,7 +797,7 @@ pub fn gen_steps(rng: &mut Rng, cfg: &Cfg, o: &GenOpts) -> Vec<Step> {
             } else {
                 rng.range(16, 480)
             };
-            let len = (cs * n).min(vend - pos).min(8 << 20);
+            let len = (cs * n).min(seq_end - pos).min(8 << 20);
             steps.push(Step::Seq(Op::Write { off: pos, len: len as u32 }));
             pos += len;
             if rng.chance(1, jump_one_in) {
@@ -795,6 +807,21 @@ pub fn gen_steps(rng: &mut Rng, cfg: &Cfg, o: &GenOpts) -> Vec<Step> {
                 0 => steps.push(Step::Seq(Op::Flush)),
                 1 => steps.push(Step::Seq(g.op(rng, cfg, o))),
                 _ => {}
+            }
+        }
+        if par_tail {
+            while pos < vend && steps.len() < 120 {
+                let mut clients = vec![];
+                for _ in 0..rng.range(3, 4) {
+                    if pos >= vend {
+                        break;
+                    }
+                    let len = (cs * rng.range(2, 12)).min(vend - pos);
+                    clients.push(vec![Op::Write { off: pos, len: len as u32 }]);
+                    pos += len;
+                }
+                clients.push(vec![if rng.chance(1, 6) { Op::Shrink } else { Op::Flush }]);
+                steps.push(Step::Par(clients));
             }
         }
     }
@@ -976,6 +1003,9 @@ pub fn gen_steps(rng: &mut Rng, cfg: &Cfg, o: &GenOpts) -> Vec<Step> {
             steps.push(Step::Seq(op));
             count += 1;
         }
+    }
+    if o.reuse_cycles_pct > 0 && !cfg.read_only && rng.below(100) < o.reuse_cycles_pct as u64 {
+        steps.push(Step::Seq(Op::ReuseCycles));
     }
     for _ in 0..o.sync_points {
         let at = rng.below(steps.len() as u64 + 1) as usize;
